@@ -585,7 +585,7 @@ func validLeaf(r *RNG, maxSeg int) *Node {
 
 func checkC01(c *Ctx) {
 	c.Res.Rule = "compound rules of 2-24 comparisons (chains to 8 operands per level, nesting to depth 12, not/NOT and parentheses anywhere) rendered from random trees in the grammar's normal form, every comparison also evaluated stand-alone by the engine on the same object; domain: all comparisons individually error-free; compared: verdict against the Boolean combination of the stand-alone verdicts (Lean `combine`), and the parse-tree skeleton against the left-associative reading; non-trivial = distinct (rule, object) whose comparisons take both truth values"
-	n := c.budget(6000, 240000)
+	n := c.budget(12000, 240000)
 	maxLeaves := 12
 	c.combLoop(n, maxLeaves, func() *Node { return validLeaf(c.R, 3) }, ObjOpts{AbsentPct: 10, NilPct: 5, NullParent: 8}, func(cc *combCase) *Violation {
 		for _, o := range cc.leafObs {
@@ -698,7 +698,7 @@ func (c *Ctx) c02Denotation(n int) {
 
 func checkC02(c *Ctx) {
 	c.Res.Rule = "compound rules whose comparisons use paths of 1-4 segments over objects with missing keys, explicit nil and nil parents in the middle followed by further comparisons, several list literals and differently typed literals per rule; every comparison evaluated stand-alone by the engine on the same object; domain: object-shaped paths; compared: verdict, error class, diagnostic presence and Stringer call order against Lean `combine` of the stand-alone outcomes; non-trivial = distinct (rule, object) with >= 2 comparisons reached of which one has an absent attribute"
-	n := c.budget(6000, 240000)
+	n := c.budget(12000, 240000)
 	c.c02Denotation(n)
 	c.combLoop(n, 8, func() *Node {
 		lf := genLeaf(c.R, 4)
@@ -755,7 +755,7 @@ func unsupported(kind string, op int) bool {
 
 func checkC06(c *Ctx) {
 	c.Res.Rule = "(a) table: every literal kind x every operator x attribute classes as single comparisons - unsupported operator => ErrInvalidOperation with verdict false whatever the attribute, supported operator with absent or wrongly typed attribute => false without error; (b) compound rules with 0-4 unsupported comparisons at random positions, under not and parentheses, objects deciding what is reached, Stringer attributes observing reach order; compared with Lean `combine` of the stand-alone outcomes: verdict, errors.Is(err, ErrInvalidOperation), Stringer call order; non-trivial = distinct (rule, object) containing an unsupported comparison"
-	n := c.budget(6000, 240000)
+	n := c.budget(12000, 240000)
 	// (a) the table, exhaustively over kind x op x attribute class
 	attrClasses := []func() *AV{func() *AV { return nil }, func() *AV { return avNull() }, func() *AV { return avInt(1) }, func() *AV { return avFloat(1.5) }, func() *AV { return avStr("1.0.0") },
 		func() *AV { return &AV{K: AVBool, B: true} }, func() *AV { o := avObj(); o.Set("b", avInt(1)); return o }, func() *AV { return &AV{K: AVOther, Tag: 8} }, func() *AV { return &AV{K: AVStringer, ID: 1, S: "abc"} }, func() *AV { return &AV{K: AVInt64, I: 1} }}
@@ -864,7 +864,7 @@ func fixNilLeaves(a *AV) {
 
 func checkC16(c *Ctx) {
 	c.Res.Rule = "(a) table: every literal kind x operator x attribute class as a single comparison: LastDebugErr()!=nil compared with the model's `undecidable`, Error() must return a non-empty text without panicking; (b) compound rules: LastDebugErr()!=nil iff some reached comparison has a diagnostic when evaluated alone (Lean `combine`); domain: convertible literals, object-shaped paths; non-trivial = distinct (rule, object) in which some comparison is undecidable"
-	n := c.budget(6000, 240000)
+	n := c.budget(12000, 240000)
 	attrClasses := []func() *AV{func() *AV { return nil }, func() *AV { return avNull() }, func() *AV { return avInt(1) }, func() *AV { return avFloat(1.5) }, func() *AV { return avStr("1.0.0") }, func() *AV { return avStr("s") },
 		func() *AV { return &AV{K: AVBool, B: true} }, func() *AV { o := avObj(); o.Set("b", avInt(1)); return o }, func() *AV { return &AV{K: AVOther, Tag: 8} }, func() *AV { return &AV{K: AVOther, Tag: 2} }, func() *AV { return &AV{K: AVOther, Tag: 3} },
 		func() *AV { return &AV{K: AVStringer, ID: 1, S: "abc"} }, func() *AV { return &AV{K: AVInt64, I: 1} }, func() *AV { return &AV{K: AVInt32, I: 1} }, func() *AV { return avStr("1.0") }}
@@ -1033,7 +1033,7 @@ func checkC16(c *Ctx) {
 
 func checkC17(c *Ctx) {
 	c.Res.Rule = "sub-rules A, B, C (1-5 comparisons each, including failing ones) drawn at random, both sides of each law (double negation, both De Morgan laws, associativity of and/or, idempotence, commutativity when A and B cannot fail) rendered as rule texts and evaluated by the engine on the same object; outcomes compared (same verdict, or both fail); no reference interpreter; non-trivial = distinct (law, A, B, C, object) where the sides are different texts and at least one sub-rule is true and one false or failing"
-	n := c.budget(4000, 180000)
+	n := c.budget(8000, 180000)
 	P := func(x *Node) *Node { return &Node{T: NParen, Q: x} }
 	Not := func(x *Node) *Node { return &Node{T: NParen, Neg: true, Q: x} }
 	And := func(x, y *Node) *Node { return &Node{T: NLogic, L: x, R: prim(y)} }
